@@ -515,7 +515,7 @@ func c20FirstSep(agg *c19Agg, p *sxPath, F *ssa.Function, fname string, R, ref s
 
 func c20R3(c *Ctx) {
 	const R3 = "C20.R3.parse-validates"
-	c.Expect(R3, 14)
+	c.Expect(R3, 16)
 	agg := newC19Agg(c, R3)
 	refT := c.P.Named("registry", "Reference")
 	PR := c.P.Fn("registry", "ParseReference")
@@ -644,6 +644,52 @@ func c20R3(c *Ctx) {
 	}
 	if nOK == 0 {
 		c.LostAnchor(R3, rn+": successful return")
+	}
+	// the string examined is the caller's, unmodified: registry.ParseReference gets the raw
+	// parameter, and a fallback reference is the parameter or what follows a separator found
+	// in the parameter itself (a prefix stripped beforehand would lose which separator — ':'
+	// ⇒ tag, '@' ⇒ digest — introduced the reference)
+	if rawIdx := c19ParamIndexByType(RP, isStringType); rawIdx >= 0 {
+		raw := sxParam{RP.Params[rawIdx]}
+		key := rn + "|whole-input-examined"
+		for _, p := range res.Paths {
+			if p.Ret == nil {
+				continue
+			}
+			bad := ""
+			for _, r := range p.Calls {
+				if r.Callee == PR && !sxSame(r.Args[0], raw) {
+					bad = "registry.ParseReference is given " + sxDescribe(r.Args[0]) + " instead of the caller's string"
+				}
+			}
+			if sxSame(p.Ret[1], sxNil) {
+				sxWalk(fld(p.Ret[0], "Reference"), func(x sxVal) bool {
+					switch u := x.(type) {
+					case sxParam:
+						if !sxSame(u, raw) {
+							bad = "the reference is taken from " + sxDescribe(u)
+						}
+					case sxCall:
+						if u.rec.Callee == PR {
+							return false // the parsed result
+						}
+						if strings.HasPrefix(u.rec.Name, "strings.") && len(u.rec.Args) > 0 && !sxSame(u.rec.Args[0], raw) {
+							bad = u.rec.Name + " searches " + sxDescribe(u.rec.Args[0]) + ", not the caller's string"
+						}
+					case sxOp:
+						if u.op == "slice" && !sxSame(u.args[0], raw) {
+							bad = "the reference is cut out of " + sxDescribe(u.args[0]) + ", not of the caller's string"
+						}
+					}
+					return true
+				})
+			}
+			if bad == "" {
+				agg.ok(key, RP, p.RetInstr, "registry.ParseReference and the fallback both examine the caller's string itself")
+			} else {
+				agg.fail(key, RP, p.RetInstr, p, bad+": part of the input (and the separator that decides tag vs digest) is dropped before validation")
+			}
+		}
 	}
 	agg.flush()
 
@@ -807,6 +853,29 @@ func c20R3(c *Ctx) {
 		}
 	}
 	agg.flush()
+	// (e) String() is written in the template algebra: the raw fields, the digest's
+	// own text and the literal separators only — any other function applied to a
+	// field (path.Join, Clean, Trim…, ToLower) changes what parses back
+	if S := c.P.Fn("registry", "Reference.String"); S != nil {
+		n := stTemplateOf(S, 0)
+		key := FnName(S) + "|template-algebra"
+		bad := ""
+		if unk := stUnknowns(n); len(unk) > 0 {
+			c.Undecided(R3, key, S.Pos(), "cannot evaluate the string built by String(): "+strings.Join(unk, "; "))
+		} else {
+			for _, h := range stHoles(n) {
+				switch {
+				case h == "registry.Reference.Registry", h == "registry.Reference.Repository", h == "registry.Reference.Reference":
+				case strings.HasPrefix(h, "registry.Reference.Digest()#0") || strings.HasPrefix(h, "digest.Parse(registry.Reference.Reference)#0") ||
+					strings.HasPrefix(h, "string(registry.Reference.Digest()#0") || strings.HasPrefix(h, "string(digest.Parse(registry.Reference.Reference)#0"):
+				default:
+					bad = h
+				}
+			}
+			c.Check(R3, key, S.Pos(), bad == "", ifelse(bad == "", "String() = "+n.render()+": only the fields, the parsed digest's text and literal separators",
+				"String() puts {"+bad+"} into the text: a function of a field other than concatenation (cleaning, trimming, case folding …) means accepted references no longer format to a string that parses back to the same parts"))
+		}
+	}
 }
 
 // ---------- R4 ----------
@@ -1595,5 +1664,10 @@ var c20Mutants = []Mutant{
 	{Name: "blob-resolve-parses-only-the-digest-suffix", File: "registry/remote/repository.go",
 		Old: "\tref, err := s.repo.ParseReference(reference)\n\tif err != nil {\n\t\treturn ocispec.Descriptor{}, err\n\t}\n\trefDigest, err := ref.Digest()\n\tif err != nil {\n\t\treturn ocispec.Descriptor{}, err\n\t}\n",
 		New: "\trefDigest, err := digest.Parse(reference[strings.LastIndexByte(reference, '@')+1:])\n\tif err != nil {\n\t\treturn ocispec.Descriptor{}, err\n\t}\n\tref := s.repo.Reference\n\tref.Reference = refDigest.String()\n", Expect: "C20.R5"},
+	{Name: "fast-path-strips-base-and-separator", File: "registry/remote/repository.go",
+		Old: "\tref, err := registry.ParseReference(reference)\n\tif err != nil {\n\t\tref = registry.Reference{",
+		New: "\tif rest, ok := strings.CutPrefix(reference, r.Reference.Registry+\"/\"+r.Reference.Repository); ok && len(rest) > 1 {\n\t\tif rest[0] == ':' || rest[0] == '@' {\n\t\t\treference = rest[1:]\n\t\t}\n\t}\n\tref, err := registry.ParseReference(reference)\n\tif err != nil {\n\t\tref = registry.Reference{", Expect: "C20.R3"},
+	{Name: "string-trims-the-registry", File: "registry/reference.go",
+		Old: "\tref := r.Registry + \"/\" + r.Repository\n", New: "\tref := strings.TrimSuffix(r.Registry, \"/\") + \"/\" + r.Repository\n", Expect: "C20.R3"},
 	{Name: "reference-placed-in-query", File: "registry/remote/url.go", Old: "\t\t\"%s/referrers/%s%s\",", New: "\t\t\"%s/referrers/?digest=%s%s\",", Expect: "C20.R4"},
 }
